@@ -95,7 +95,14 @@ def parse_race_reports(text):
                 continue
             sec = re.split(r"\nGoroutine \d+", sec)[0]
             fn = None
-            for line in sec.splitlines():
+            grow = False
+            first = True
+            for line in sec.splitlines()[1:]:
+                if not line.startswith("  ") or line.startswith("      "):
+                    continue
+                if first:
+                    first = False
+                    grow = "bitmap.(*Bitmap).grow" in line
                 m = re.match(r"\s+(github\.com/kelindar/column\S*?)\(\)?\s*$", line) or re.match(r"\s+(github\.com/kelindar/column[^\s]*)\(", line)
                 if m:
                     fn = m.group(1)
@@ -104,7 +111,10 @@ def parse_race_reports(text):
                 fn = "(outside kelindar/column)"
             fn = re.sub(r"\[[^\]]*\]", "", fn)
             fn = re.sub(r"(\.func\d+)+(\.\d+)*$", "", fn)
-            frames.append(fn.replace("github.com/kelindar/column", "column"))
+            fn = fn.replace("github.com/kelindar/column", "column")
+            if grow:
+                fn = "grow>" + fn  # the access is a re-allocation of a bitmap (bitmap.grow) reached from fn
+            frames.append(fn)
         if len(frames) >= 2:
             key = tuple(sorted(frames[:2]))
             cnt, ex = out.get(key, (0, blk[:3000]))
